@@ -54,6 +54,14 @@ func histSources(kind string, inline bool) (entry string, files map[string]strin
 		main = "a{{ 'unclosed }}b" + main
 	case kind == "runtime":
 		main = main + "{{ x|nosuchfilter }}"
+	case kind == "extuse":
+		// extends a parent and uses a template that cannot be loaded (with the string loader: one without the aliased block)
+		files["base"] = "B{% block b %}{% endblock %}"
+		main = "{% extends 'base' %}{% use 'nosuch' with nb as y %}{% block b %}x{% endblock %}"
+	case kind == "extusealias":
+		files["base"] = "B{% block b %}{% endblock %}"
+		files["u"] = "{% block ub %}u{% endblock %}"
+		main = "{% extends 'base' %}{% use 'u' with nb as y %}{% block b %}x{% endblock %}"
 	case kind == "incsyn":
 		if inline {
 			main = strings.Replace(main, inc, "<{{ x }", 1)
